@@ -290,6 +290,11 @@ func c11RawCases() []c11Raw {
 		{"todos-share-getter-among-themselves", "services:\n  ph1:\n    todo: true\n    getter: GetX\n  ph2:\n    todo: true\n    getter: GetX\n", "accept"},
 		{"todo-with-reserved-getter-and-must-getter-without-getter", "services:\n  ph1:\n    todo: true\n    getter: Get\n  ph2:\n    todo: true\n    must_getter: true\n  real:\n    constructor: fx/lib.NewObj\n    getter: GetReal\n", "accept"},
 		{"todo-duplicate-still-reported-for-the-real-ones", "services:\n  ph:\n    todo: true\n    getter: GetX\n  r1:\n    constructor: fx/lib.NewObj\n    getter: GetX\n  r2:\n    constructor: fx/lib.NewObj\n    getter: GetX\n", "input:service:r2|getter"},
+		{"tag-priority-above-maxint64", svc("    constructor: fx/lib.NewObj\n    tags: [{name: t, priority: 9223372036854775808}]\n"), "read"},
+		{"tag-priority-maxuint64", svc("    constructor: fx/lib.NewObj\n    tags: [{name: t, priority: 18446744073709551615}]\n"), "read"},
+		{"tag-priority-maxint64", svc("    constructor: fx/lib.NewObj\n    tags: [{name: t, priority: 9223372036854775807}, {name: u, priority: -9223372036854775808}]\n"), "accept"},
+		{"tag-priority-float-integral", svc("    constructor: fx/lib.NewObj\n    tags: [{name: t, priority: 1.0}]\n"), "read"},
+		{"tag-priority-hex-and-octal", svc("    constructor: fx/lib.NewObj\n    tags: [{name: t, priority: 0x10}, {name: u, priority: 0o17}]\n"), "accept"},
 		{"todo-false-invalid", "services:\n  s:\n    todo: false\n    getter: MustX\n    constructor: fx/lib.NewObj\n", "input:service:s|getter"},
 	}
 	return r
